@@ -95,7 +95,10 @@ func (e *xmlEncoder) Encode(writer io.Writer, node *CandidateNode) error {
 		return fmt.Errorf("cannot encode %v to XML - only maps can be encoded", node.Tag)
 	}
 
-	return encoder.EncodeToken(newLine)
+	if err := encoder.EncodeToken(newLine); err != nil {
+		return err
+	}
+	return encoder.Flush()
 
 }
 
